@@ -79,7 +79,8 @@ HOLD = 3
 ASSUMPTIONS = [a % WINDOW if "%d" in a else a for a in ASSUMPTIONS]
 TIERS = {
     "quick": {"examples": int(os.environ.get("VERIF_C13_EXAMPLES", "24000")), "budget_s": 150},   # env: development aid for mutant runs
-    "thorough": {"examples": 200000, "budget_s": 1400, "deep": True, "fuzz_runs": 64000, "fuzz_cap_s": 300},
+    "thorough": {"examples": int(os.environ.get("VERIF_C13_THOROUGH_EXAMPLES", "200000")), "budget_s": 1400, "deep": True,
+                 "fuzz_runs": int(os.environ.get("VERIF_C13_FUZZ_RUNS", "64000")), "fuzz_cap_s": 300},
 }
 
 _TIMED = re.compile(r"(?:Pause|Hold)\b")
@@ -180,6 +181,22 @@ def _corrected(lines, touched: set, failed: set):
         prev_ind, prev_text = ind, l[1]
     if D.is_container(prev_text):
         return None, "empty-body-opener"
+    # a Block that is never ended keeps the block lock for good: every Block needs an End block(s) among its direct children
+    for i, l in enumerate(kept):
+        ind, rest = D.split_indent(l[1])
+        if rest.startswith("Block:"):
+            ended = False
+            for m in kept[i + 1:]:
+                ind2, rest2 = D.split_indent(m[1])
+                if rest2 == "" or rest2.startswith("#"):
+                    continue
+                if ind2 <= ind:
+                    break
+                if ind2 == ind + 4 and rest2 in ("End block", "End blocks"):
+                    ended = True
+                    break
+            if not ended:
+                return None, "unterminated-block"
     kept.append(["tail", "Mark: tail"])
     return kept, None
 
@@ -232,7 +249,8 @@ def _epilogue_fix(c: D.Campaign, viol, info):
             return
         errs = [e for e in rec.events if e[1] == "method_error"]
         if errs:
-            viol("unresponsive:corrected-method:error-again:%s" % errs[0][2],
+            label = "completed-node-revisited" if "node.complete was set" in errs[0][3] else errs[0][2]
+            viol("unresponsive:corrected-method:error-again:%s" % label,
                  "corrected method %r failed again: %s" % ([l[1] for l in new], errs[0][3][:200]))
             return
     viol("unresponsive:corrected-method:tail-never-ran",
@@ -486,6 +504,12 @@ def _fuzz_stage(col, cfg):
                     lst = col.violations.setdefault(v.sig, [])
                     if len(lst) < col.MAX_VIOL_PER_SIG:
                         lst.append(v.to_json())
-        col.extra["fuzz_artifacts"] = len(os.listdir(art))
+        # libFuzzer artifacts: slow-unit-* only says that one execution was slow on a loaded machine; the target runs in collect
+        # mode, so crash-* can only stem from an exception inside harness code and timeout-* from a hang (> 120 s)
+        names = os.listdir(art)
+        col.extra["fuzz_slow_units"] = sum(1 for n in names if n.startswith("slow-unit-"))
+        bad = sorted(n for n in names if n.startswith(("crash-", "timeout-", "oom-")))
+        if bad:
+            raise RuntimeError("atheris stage left artifacts %r (harness problem, not a verdict): %s" % (bad, proc.stderr[-1500:]))
     finally:
         shutil.rmtree(tmp, ignore_errors=True)
